@@ -115,6 +115,13 @@ class StmtMixin:
             out.extend(self.load_attr(e, base, e.attr, s, fr))
         return out
 
+    @staticmethod
+    def _owner_of(cls, attr):
+        for c in cls.mro:
+            if attr in c.class_attrs:
+                return c
+        return cls
+
     def load_attr(self, node, base, attr, st, fr):
         if isinstance(base, Ref) and base.kind == "obj":
             cls = base.cls
@@ -133,6 +140,10 @@ class StmtMixin:
                 cell.fields[attr] = mv
                 return [(st, mv)]
             if hit and hit[0] == "classattr":
+                try:
+                    return [(st, self.lift(self.prog.class_const(self._owner_of(cls, attr), attr), st))]
+                except ValueError:
+                    pass
                 vals = self.ev(hit[1], st, fr) if hit[1] is not None else [(st, Unknown())]
                 return vals
             alts = self.lazy_field(st, base, attr)
@@ -153,6 +164,10 @@ class StmtMixin:
                 key = ("classattr", cls.qualname, attr)
                 if key in st.extra:
                     return [(st, st.extra[key])]
+                try:
+                    return [(st, self.lift(self.prog.class_const(self._owner_of(cls, attr), attr), st))]
+                except ValueError:
+                    pass
                 if hit[1] is not None:
                     return self.ev(hit[1], st, fr)
             if hit and hit[0] == "method":
@@ -290,7 +305,7 @@ class StmtMixin:
             set_ = dict(st.extra.get("symrng", {}))
             set_.setdefault(nm, (0, 255))
             st.extra["symrng"] = set_
-            return Sym(nm, "int", rng=(0, 255), of=base, deps=frozenset(deps_of(base)))
+            return Sym(nm, "int", rng=(0, 255), of=base, at=idx, deps=frozenset(deps_of(base)))
         if isinstance(base, Ref) and base.kind == "dict":
             return Unknown(why="dict item")
         return Unknown(deps_of(base) | deps_of(idx), why="index")
@@ -321,6 +336,20 @@ class StmtMixin:
             tl = as_lin(norm(total)) if total is not None else None
             lo_v = Const(0) if lo is None else norm(lo)
             hi_v = total if hi is None else norm(hi)
+
+            def from_end(v):
+                # x[-k:] / x[:-k]: a negative constant bound counts from the end (clamped at 0)
+                c = const_of(v)
+                if c is None or c >= 0 or tl is None:
+                    return v
+                r = lin_add(tl, Lin({}, -c), -1)
+                sg = self.lin_sign(r, st)
+                if sg in ("<0", "<=0"):
+                    return Const(0)
+                if sg in (">0", ">=0", "==0"):
+                    return Const(r.c) if not r.terms else r
+                return v
+            lo_v, hi_v = from_end(lo_v), from_end(hi_v)
             ln = self.slice_len(tl, lo_v, hi_v, st)
             src = b.parts[0][0] if len(b.parts) == 1 else ("concat", tuple(p[0] for p in b.parts))
             kind = b.kind if b.kind != "byteslike" else "byteslike"
@@ -390,6 +419,9 @@ class StmtMixin:
             # *args in a call (`RF24(*spi_obj)`-style) never occurs in the package
             self.warn("star-args call in %s" % fr.func.qualname)
             return [(st, Unknown(why="starargs"))]
+        if isinstance(f, ast.Name) and f.id in ("any", "all") and len(e.args) == 1 and not e.keywords and isinstance(e.args[0], (ast.GeneratorExp, ast.ListComp)) \
+                and f.id not in st.envs[fr.fid]:
+            return self.ev_quantifier(e, f.id == "any", st, fr)
         argexprs = list(e.args) + [k.value for k in e.keywords]
         out = []
         # super().m(...)
@@ -442,6 +474,15 @@ class StmtMixin:
             return self.call_func(st, fr, e, env[nm].attrs["func"], fr.recv, fr.self_val, args, kw, closure=env)
         if nm in holder.nested and nm not in env:
             return self.call_func(st, fr, e, holder.nested[nm], fr.recv, fr.self_val, args, kw, closure=env)
+        if nm in env and isinstance(env[nm], Sym) and env[nm].ty == "method" and "func" in env[nm].attrs:
+            # a local holding a method value (`handler = self._x if .. else self._y; handler(arg)`)
+            mv = env[nm]
+            sv = mv.attrs.get("selfv")
+            if sv is not None:
+                return self.call_func(st, fr, e, mv.attrs["func"], sv.cls, sv, args, kw)
+            if args:
+                a0 = args[0]
+                return self.call_func(st, fr, e, mv.attrs["func"], a0.cls if isinstance(a0, Ref) and a0.kind == "obj" else mv.attrs["func"].cls, a0, args[1:], kw)
         if nm in env:
             self.event(st, fr, "callback", e, nm)
             return [(st, Unknown(why="callable local"))]
